@@ -8,10 +8,17 @@ type stringInput struct {
 	runes []rune
 }
 
+// newStringInput returns nil for the empty string,
+// since the parser combinators represent the end of input by a nil input.
 func newStringInput(s string) comb.Input {
+	runes := []rune(s)
+	if len(runes) == 0 {
+		return nil
+	}
+
 	return &stringInput{
 		pos:   0,
-		runes: []rune(s),
+		runes: runes,
 	}
 }
 
